@@ -48,7 +48,8 @@ fn ops_case(inp: &[u64]) -> Result<(), String> {
             5 => { let nl = rng.below(200) as usize; let b = rng.below(2) == 1; bv.resize(nl, b); m.resize(nl, b); }
             6 => { let b = rng.below(2) == 1; bv.fill(b); for x in m.iter_mut() { *x = b; } }
             7 => { bv.flip(); for x in m.iter_mut() { *x = !*x; } }
-            8 => { let c = bv.count_ones(); let e = m.iter().filter(|x| **x).count(); if c != e { return Err(format!("step {}: count_ones {} != {}", step, c, e)); } }
+            8 => { let c = bv.count_ones(); let e = m.iter().filter(|x| **x).count(); if c != e { return Err(format!("step {}: count_ones {} != {}", step, c, e)); }
+                   let pc = bv.par_count_ones(); if pc != e { return Err(format!("step {}: par_count_ones {} != {}", step, pc, e)); } }
             9 => { let got: Vec<usize> = bv.iter_ones().collect(); let e: Vec<usize> = (0..m.len()).filter(|&i| m[i]).collect(); if got != e { return Err(format!("step {}: iter_ones mismatch", step)); } }
             10 => { let got: Vec<usize> = bv.iter_zeros().collect(); let e: Vec<usize> = (0..m.len()).filter(|&i| !m[i]).collect(); if got != e { return Err(format!("step {}: iter_zeros mismatch", step)); } }
             _ => {
@@ -73,6 +74,7 @@ fn stale_case(inp: &[u64]) -> Result<(), String> {
     let m = model(&words, len);
     let clean: BitVec = m.iter().copied().collect();
     if bv.count_ones() != m.iter().filter(|x| **x).count() { return Err("count_ones trusts garbage".into()); }
+    if bv.par_count_ones() != m.iter().filter(|x| **x).count() { return Err("par_count_ones trusts garbage".into()); }
     if !(bv == clean) || !(clean == bv) { return Err("eq trusts garbage".into()); }
     let got: Vec<bool> = bv.iter().collect();
     if got != m { return Err("iter mismatch".into()); }
